@@ -135,3 +135,100 @@ pub fn all_words(alphabet: &[&[u8]], max: usize) -> Vec<Vec<u8>> {
     }
     out
 }
+
+// ---------------------------------------------------------------------------------------------
+// drop-logging element with unique ids (C11/C15): appended by the C11/C15 builder
+// ---------------------------------------------------------------------------------------------
+pub mod elog {
+    use std::cell::{Cell, RefCell};
+    thread_local! {
+        static LOG: RefCell<Vec<String>> = RefCell::new(Vec::new());
+        static VALS: RefCell<Vec<u32>> = RefCell::new(Vec::new());
+        static CORRUPT: Cell<bool> = Cell::new(false);
+    }
+    /// element with identity: `id` is its creation number, `val` a payload that must survive every move
+    pub struct E {
+        pub id: u32,
+        pub val: u32,
+    }
+    pub fn reset() {
+        LOG.with(|l| l.borrow_mut().clear());
+        VALS.with(|v| v.borrow_mut().clear());
+        CORRUPT.with(|c| c.set(false));
+    }
+    fn fresh(val: u32) -> E {
+        let id = VALS.with(|v| {
+            let mut v = v.borrow_mut();
+            v.push(val);
+            (v.len() - 1) as u32
+        });
+        E { id, val }
+    }
+    /// a new element; payload derived from the id
+    pub fn new() -> E {
+        let n = VALS.with(|v| v.borrow().len() as u32);
+        fresh(n.wrapping_mul(2654435761).rotate_left(7) ^ 0x5bd1e995)
+    }
+    /// a new element with a chosen payload
+    pub fn with_val(val: u32) -> E {
+        fresh(val)
+    }
+    fn check(e: &E) {
+        let ok = VALS.with(|v| v.borrow().get(e.id as usize).copied() == Some(e.val));
+        if !ok {
+            CORRUPT.with(|c| c.set(true));
+        }
+    }
+    pub fn event(id: u32, tag: &str) {
+        LOG.with(|l| l.borrow_mut().push(format!("{}:{}", id, tag)));
+    }
+    impl Drop for E {
+        fn drop(&mut self) {
+            check(self);
+            event(self.id, "d");
+        }
+    }
+    impl Clone for E {
+        fn clone(&self) -> E {
+            check(self);
+            fresh(self.val)
+        }
+    }
+    /// the caller receives the element: logged as `tag` (`m` moved to caller, `c` handed to a closure)
+    pub fn take_as(e: E, tag: &str) -> u32 {
+        check(&e);
+        event(e.id, tag);
+        let id = e.id;
+        std::mem::forget(e);
+        id
+    }
+    pub fn take(e: E) -> u32 {
+        take_as(e, "m")
+    }
+    /// look at an element without moving it
+    pub fn peek(e: &E) -> u32 {
+        check(e);
+        e.id
+    }
+    pub fn created() -> u32 {
+        VALS.with(|v| v.borrow().len() as u32)
+    }
+    /// `[id:tag;…]` in event order; `CORRUPT` if any payload changed
+    pub fn log() -> String {
+        if CORRUPT.with(|c| c.get()) {
+            return "CORRUPT".to_string();
+        }
+        LOG.with(|l| format!("[{}]", l.borrow().join(";")))
+    }
+    /// ids created but never moved out nor dropped
+    pub fn leaked() -> String {
+        let seen: Vec<u32> = LOG.with(|l| {
+            l.borrow().iter().map(|s| s.split(':').next().unwrap().parse().unwrap()).collect()
+        });
+        let v: Vec<String> = (0..created()).filter(|i| !seen.contains(i)).map(|i| i.to_string()).collect();
+        format!("[{}]", v.join(";"))
+    }
+    pub fn ids(v: &[u32]) -> String {
+        format!("[{}]", v.iter().map(|x| x.to_string()).collect::<Vec<_>>().join(";"))
+    }
+}
